@@ -66,7 +66,8 @@ Inductive cin :=
 | IData (c : cfg) (ncols nrows : nat) (rowtot coltot : bool) (aggs : list agg)
 | IFmt (f : fspec) (calls : list (Z * Z * Z))          (* one compiled formatter, a sequence of calls *)
 | IHeatSeq (col uni : bool) (rlim clim : nat) (fixmin fixmax : bool) (ops : list heat_op)
-| ICliSame (auto : list str).                          (* CLI: fixed range = automatic range *)
+| ICliSame (auto : list str)
+| IBarF (c : cfg) (size : Z) (stacked : bool) (ops : list b_op).  (* frames fed like cmd/bargraph.go *)                          (* CLI: fixed range = automatic range *)
 
 (* OFail: the implementation panicked or did not return within the watchdog's limit *)
 Inductive obs := OQ (l : list Q) | OZ (l : list Z) | OS (l : list str) | OFail.
@@ -205,6 +206,11 @@ Definition model (i : cin) : obs :=
       | _ => OFail
       end
   | ICliSame auto => OS auto
+  | IBarF c size stacked ops =>
+      match bg_run (c_col c) (c_uni c) (m_of (c_mp c)) round53 (fmt_of (c_fk c)) size stacked (bg_new, []) ops with
+      | Ok st => OS (vlines (c_col c) (snd st))
+      | Panic => OFail
+      end
   end.
 
 (* ---------- the property's boolean form on an observed output ---------- *)
@@ -338,6 +344,52 @@ Definition heat_seq_chk (col uni : bool) (rlim clim : nat) (fmn fmx : bool) (ops
   | _ => true
   end.
 
+(* bar graph fed frame by frame (SetKeys, then one WriteBar per row): on the final screen every
+   row of the LAST frame ends with the bar(s) and number(s) of its last values under the final
+   maximum — whatever was drawn for that row in earlier frames *)
+Definition ops_after_last_keys (ops : list b_op) : list str * list b_op :=
+  fold_left (fun acc o => match o with BKeys ks => (ks, []) | _ => (fst acc, snd acc ++ [o]) end) ops ([], []).
+Definition bg_final_max (stacked : bool) (ops : list b_op) : Z :=
+  fold_left (fun mx o => match o with BBar _ _ vs => Z.max mx (if stacked then zsum vs else zmax0 vs) | _ => mx end) ops 0.
+Definition keys_shown (ks : list str) : bool := match ks with [] => false | [[]] => false | _ => true end.
+Definition bg_prefix (ops : list b_op) : nat :=
+  if existsb (fun o => match o with BKeys ks => keys_shown ks | _ => false end) ops then 1%nat else 0%nat.
+(* is this the last WriteBar for its index? *)
+Fixpoint last_for_idx (idx : nat) (rest : list b_op) : bool :=
+  match rest with
+  | [] => true
+  | BBar i _ _ :: r => negb (Nat.eqb i idx) && last_for_idx idx r
+  | _ :: r => last_for_idx idx r
+  end.
+Fixpoint grouped_tails_ok (c : cfg) (size mx : Z) (lines : list str) (line : nat) (i : nat) (vals : list Z) : bool :=
+  match vals with
+  | [] => true
+  | v :: r =>
+      match group_color i, bar_write (c_uni c) round53 (scale (m_of (c_mp c)) round53 v 0 mx) size with
+      | Ok gc, Ok bar =>
+          ends_with (nth (line + i) lines []) (SP :: vis (c_col c) (cwrite (c_col c) gc bar ++ [SP] ++ fmt_of (c_fk c) v 0 mx))
+      | _, _ => false
+      end && grouped_tails_ok c size mx lines line (S i) r
+  end.
+Fixpoint bg_rows_ok (c : cfg) (size : Z) (stacked : bool) (mx : Z) (nk prefix : nat) (lines : list str) (ops : list b_op) : bool :=
+  match ops with
+  | [] => true
+  | BBar idx key vals :: r =>
+      (if last_for_idx idx r then
+         if stacked then
+           match bar_stacked (c_col c) (c_uni c) mx size vals with
+           | Ok bar => ends_with (nth (idx + prefix) lines [])
+                         (SP :: SP :: vis (c_col c) (bar ++ [SP; SP] ++ fmt_of (c_fk c) (zsum vals) 0 mx))
+           | Panic => false
+           end
+         else grouped_tails_ok c size mx lines (prefix + idx * nk) 0 vals
+       else true) && bg_rows_ok c size stacked mx nk prefix lines r
+  | _ :: r => bg_rows_ok c size stacked mx nk prefix lines r
+  end.
+Definition bg_final_chk (c : cfg) (size : Z) (stacked : bool) (ops : list b_op) (lines : list str) : bool :=
+  let '(ks, tail) := ops_after_last_keys ops in
+  bg_rows_ok c size stacked (bg_final_max stacked ops) (length ks) (bg_prefix ops) lines tail.
+
 (* histogram, the final screen: every displayed line (value > 0) is the line of its key and value
    under the final running maximum and key width — its bar is the bar of its value against the
    CURRENT maximum, in whatever order the lines were written *)
@@ -372,6 +424,7 @@ Definition check (i : cin) (o : obs) : bool :=
   | IHisto c n sb ops, OS lines => histo_chk c n sb ops lines
   | IHeatSeq col uni rlim clim fmn fmx ops, OS lines => heat_seq_chk col uni rlim clim fmn fmx ops lines
   | ICliSame auto, OS fixed => Sl_eqb auto fixed
+  | IBarF c size stacked ops, OS lines => bg_final_chk c size stacked ops lines
   | IFmt f calls, OS l =>
       (* the output is a function of (value, min, max) alone: the template instantiated *)
       zip_all (fun x out => str_eqb out (fmt_of f (fst (fst x)) (snd (fst x)) (snd x))) calls l
@@ -407,3 +460,4 @@ Definition iHeat c (r k : Z) aggs := IHeat c (zn r) (zn k) aggs.
 Definition iSpark c (r k : Z) aggs := ISpark c (zn r) (zn k) aggs.
 Definition iData c (k r : Z) rt ct aggs := IData c (zn k) (zn r) rt ct aggs.
 Definition iHeatSeq (col uni : bool) (r k : Z) (fmn fmx : bool) ops := IHeatSeq col uni (zn r) (zn k) fmn fmx ops.
+Definition bK (ks : list str) : b_op := BKeys ks.
